@@ -59,6 +59,34 @@ def make_tracer(cfg, f=None, t=None):
     return BasicRayTracer(f, t, ice, dz=cfg.get("dz", 1))
 
 
+_ICEP = {}
+
+
+def cancellation_bound(s):
+    """C01's derived worst-case effect (radial distance, path length, tof) of the log_term_1 cancellation of the analytic
+    tracer on this solution (harness.props.c01.log1_bound: shallow closed forms evaluated at the segment endpoints at or
+    above z_uniform and at z_uniform when crossed).  Zero for every other path class."""
+    if type(s).__name__ != "SpecializedRayTracePath":
+        return np.zeros(3)
+    from harness.props import c01
+    cls = type(s.ice).__name__
+    if cls not in _ICEP:
+        _ICEP[cls] = c01.ice_params(None, default_of=cls)
+    icep = _ICEP[cls]
+    zf, zt = float(s.from_point[2]), float(s.to_point[2])
+    em = U.fl(s.emitted_direction)
+    beta = c01.nprof(icep, zf) * math.hypot(em[0], em[1])
+    zu = c01.z_uniform_of(icep)
+    if s.direct:
+        legs = [(min(zf, zt), max(zf, zt), False)]
+    else:
+        ntop = c01.nprof(icep, icep["hi"])
+        zturn = icep["hi"] if beta <= ntop else math.log((icep["n0"] - beta) / icep["k"]) / icep["a"]
+        legs = [(zf, zturn, True), (zt, zturn, True)]
+    with np.errstate(all="ignore"):
+        return np.asarray(c01.log1_bound(icep, beta, legs, zu), dtype=float)
+
+
 def observe(tr):
     """list of dicts, one per solution, plus exists."""
     with np.errstate(all="ignore"):
@@ -67,7 +95,7 @@ def observe(tr):
         out = []
         for s in sols:
             out.append({"L": float(s.path_length), "tof": float(s.tof), "att": [float(x) for x in np.asarray(s.attenuation(FREQS))],
-                        "em": U.fl(s.emitted_direction), "rc": U.fl(s.received_direction), "obj": s})
+                        "em": U.fl(s.emitted_direction), "rc": U.fl(s.received_direction), "obj": s, "B": cancellation_bound(s)})
     return ex, out
 
 
@@ -123,7 +151,7 @@ def tolerances(cfg, o):
     geometry is presented in other coordinates (translated / rotated / swapped): coordinate rounding
     eps*|coordinates| changes rho, the solver reproduces its root to 2e-12 rad; both are amplified by the
     conditioning 1/cos^3 of the launch angle; plus the documented accuracy of each solver."""
-    cz = max(min(abs(o["em"][2]), abs(o["rc"][2])), 1e-3)
+    cz = max(min(abs(o["em"][2]), abs(o["rc"][2])), 0.05)
     amp = 1.0 / cz ** 3
     if cfg["kind"] == "uniform":
         return 0.0, 1e-11 * amp, 1e-11 * amp
@@ -145,35 +173,58 @@ def compare(ctx, cfg, what, oa, ob, map_em, map_rc, att_allow=None, key_extra=No
     used = set()
     for i, a in enumerate(oa):
         absl, rel, dtol = tolerances(cfg, a)
-        if cfg["kind"] in ("specialized", "basic") or (cfg["kind"] == "layered" and absl > 0):
+        if cfg["kind"] == "layered" and absl > 0:
             if math.hypot(a["em"][0], a["em"][1]) < 0.08 or math.hypot(a["rc"][0], a["rc"][1]) < 0.08:
-                continue      # near-vertical through exponential ice (beta < ~0.1): beta_tolerance / cancellation regime, C01's finding F10
+                continue      # near-vertical through exponential layers (beta < ~0.1): beta_tolerance / cancellation regime, C01's finding F10
+        if cfg["kind"] in ("specialized", "basic"):
+            if 1.8 * math.hypot(a["em"][0], a["em"][1]) < 0.0055 or 1.8 * math.hypot(a["rc"][0], a["rc"][1]) < 0.0055:
+                ctx.extra["skipped_beta_tolerance"] = ctx.extra.get("skipped_beta_tolerance", 0) + 1
+                continue      # beta <= beta_tolerance: the analytic tracer switches to its beta = 0 forms (C01 known finding)
+            if not np.all(np.isfinite(a["B"])) or a["B"][1] + 2 * a["B"][0] > 0.05 * a["L"]:
+                ctx.extra["skipped_cancellation_bound"] = ctx.extra.get("skipped_cancellation_bound", 0) + 1
+                continue      # C01's cancellation bound (open finding F10) swallows the comparison
         if a["L"] == 0.0:
             continue          # coincident endpoints: the direction is a convention ((0,0,1)), nothing to exchange
-        hit, why = None, ""
-        for j, b in enumerate(ob):
-            if j in used:
-                continue
+        hit, why, swallowed = None, "", False
+        cands = sorted((j for j in range(len(ob)) if j not in used), key=lambda j: abs(ob[j]["L"] - a["L"]))
+        if cfg["kind"] in ("specialized", "basic"):
+            cands = cands[:1]     # the two solutions of a gradient tracer have different lengths: the partner is the nearest one
+        for j in cands:
+            b = ob[j]
             probs = []
-            if abs(a["L"] - b["L"]) > absl + rel * (1 + abs(a["L"])):
-                probs.append("path_length %r vs %r" % (a["L"], b["L"]))
-            if abs(a["tof"] - b["tof"]) > rel * abs(a["tof"]) + 2 * absl / U.C0 + 1e-18:
+            # cancellation bound of BOTH solutions: on the quantity itself, and through the launch angle (the root of a
+            # distance function that is off by B_r moves the path by <= |dL/dr| B_r <= 2 B_r, the time by <= 2 n0 B_r / c)
+            Bsum = a["B"] + b["B"]
+            if not np.all(np.isfinite(Bsum)) or Bsum[1] + 2 * Bsum[0] > 0.05 * max(a["L"], 1e-9):
+                swallowed = True      # this candidate cannot be judged: C01's cancellation bound exceeds 5 % of the path
+                if cfg["kind"] in ("specialized", "basic"):
+                    used.add(j)
+                continue
+            cL = 1.01 * (Bsum[1] + 2 * Bsum[0])
+            cT = 1.01 * (Bsum[2] + 2 * 1.8 * Bsum[0] / U.C0)
+            cD = 4.0 * Bsum[0] / max(a["L"], 1.0) / max(min(abs(a["em"][2]), abs(a["rc"][2])), 1e-3) ** 3
+            if abs(a["L"] - b["L"]) > absl + rel * (1 + abs(a["L"])) + cL:
+                probs.append("path_length %r vs %r (cancellation allowance %.3g)" % (a["L"], b["L"], cL))
+            if abs(a["tof"] - b["tof"]) > rel * abs(a["tof"]) + 2 * absl / U.C0 + 1e-18 + cT:
                 probs.append("tof %r vs %r" % (a["tof"], b["tof"]))
             allow = np.zeros(len(FREQS)) if att_allow is None else att_allow(a["obj"]) + att_allow(b["obj"])
             for fa, fb, al in zip(a["att"], b["att"], allow):
-                if abs(math.log(max(fa, 1e-300)) - math.log(max(fb, 1e-300))) > rel * 10 + absl / 100.0 + 1.001 * al:
+                if abs(math.log(max(fa, 1e-300)) - math.log(max(fb, 1e-300))) > rel * 10 + absl / 100.0 + 1.001 * al + cL / 100.0:
                     probs.append("attenuation %r vs %r (allowance %.3g)" % (a["att"], b["att"], al))
                     break
             em_exp, rc_exp = map_em(a), map_rc(a)
-            if U.vdiff(b["em"], em_exp) > dtol:
+            if U.vdiff(b["em"], em_exp) > dtol + cD:
                 probs.append("emitted %r, expected %r" % (b["em"], em_exp))
-            if U.vdiff(b["rc"], rc_exp) > dtol:
+            if U.vdiff(b["rc"], rc_exp) > dtol + cD:
                 probs.append("received %r, expected %r" % (b["rc"], rc_exp))
             if not probs:
                 hit = j
                 break
             if not why or len(probs) < why.count(";") + 1:
                 why = "; ".join(probs)
+        if hit is None and swallowed:
+            ctx.extra["skipped_cancellation_bound"] = ctx.extra.get("skipped_cancellation_bound", 0) + 1
+            continue
         if hit is None:
             ctx.fail(key, "%s tracer, %s: solution %d (length %r, emitted %r, received %r) has no counterpart: %s (tol rel %.3g dir %.3g); %s" % (
                 cfg["kind"], what, i, a["L"], a["em"], a["rc"], why, rel, dtol, json.dumps(cfg)), replay)
@@ -225,10 +276,6 @@ def probe_cfg(ctx, cfg, rng):
                  {"kind": "sym", "what": "count", "cfg": cfg})
     if cfg["kind"] in ("specialized", "basic") and near_regime_edge(tr):
         return
-    if cfg["kind"] in ("specialized", "basic") and min(cfg["from"][2], cfg["to"][2]) < {"GreenlandIce": -330.0}.get(cfg.get("ice_class"), -630.0):
-        # an endpoint near / below z_uniform: path_length and the distance function of the analytic tracer carry the
-        # log_1 cancellation error documented for C01 (design finding F10, up to metres); only counts are judged there
-        return
     f, t = cfg["from"], cfg["to"]
     # swap
     try:
@@ -264,8 +311,19 @@ def probe_cfg(ctx, cfg, rng):
 
 # ---------------------------------------------------------------------------- generators
 def rand_gradient_cfg(rng, kind):
-    z0, z1 = -round(10 ** rng.uniform(0.3, 3.2), 1), -round(10 ** rng.uniform(0.3, 3.2), 1)
-    if kind == "basic":
+    ice_class = rng.choice(["AntarcticIce", "AntarcticIce", "GreenlandIce"]) if kind == "specialized" else "AntarcticIce"
+    zu = {"GreenlandIce": -410.0}.get(ice_class, -764.6)          # z_uniform of the model (approximately)
+
+    def shallow():
+        return -round(min(10 ** rng.uniform(0.3, 3.0), -zu - 5.0), 1)
+
+    def deep():
+        return round(zu - rng.choice([2.0, rng.uniform(5, 60), rng.uniform(60, 1500)]), 1)
+    # position of the endpoints relative to z_uniform: shallow-shallow, source above / below (ray ACROSS z_uniform), deep-deep
+    cls = rng.choice(["ss", "ss", "sd", "ds", "dd"]) if kind == "specialized" else rng.choice(["ss", "ss", "ss", "sd", "ds"])
+    z0 = shallow() if cls[0] == "s" else deep()
+    z1 = shallow() if cls[1] == "s" else deep()
+    if kind == "basic" and cls == "ss":
         z0, z1 = -round(rng.uniform(5, 400), 1), -round(rng.uniform(5, 400), 1)
     rho = 10 ** rng.uniform(1.0, 3.3) if kind == "specialized" else 10 ** rng.uniform(1.0, 2.6)
     if rng.random() < 0.12:
@@ -276,8 +334,7 @@ def rand_gradient_cfg(rng, kind):
     t = [ox + rho * math.cos(az), oy + rho * math.sin(az), float(z1)]
     if rng.random() < 0.05:
         t[2] = 5.0                      # above the ice
-    cfg = {"kind": kind, "from": [float(x) for x in f], "to": [float(x) for x in t],
-           "ice_class": rng.choice(["AntarcticIce", "AntarcticIce", "GreenlandIce"]) if kind == "specialized" else "AntarcticIce"}
+    cfg = {"kind": kind, "from": [float(x) for x in f], "to": [float(x) for x in t], "ice_class": ice_class, "zu_class": cls}
     if kind == "basic":
         cfg["dz"] = rng.choice([1, 2])
     return cfg
@@ -304,6 +361,8 @@ def probes(ctx, scale):
             cfg = rand_uniform(rng) if kind == "uniform" else rand_layered(rng) if kind == "layered" else rand_gradient_cfg(rng, kind)
             ctx.case(key=(kind, json.dumps(cfg, sort_keys=True)), sample={"probe": kind, "cfg": cfg})
             counts[kind] = counts.get(kind, 0) + 1
+            if "zu_class" in cfg:
+                counts[kind + ":" + cfg["zu_class"]] = counts.get(kind + ":" + cfg["zu_class"], 0) + 1
             probe_cfg(ctx, cfg, rng)
     ctx.extra["probe_counts"] = counts
 
